@@ -2,6 +2,7 @@ import ReplicatProofs.Lemmas.RateLimit
 import ReplicatProofs.Lemmas.RateLimitMulti
 import ReplicatProofs.Lemmas.RateLimitStamps
 import ReplicatProofs.Lemmas.SizeLit
+import ReplicatProofs.Lemmas.IOStack
 /-!
 # C20 — the bandwidth limit is respected and transparent to the data
 
@@ -554,5 +555,126 @@ example : ("snapshot", expectedPiece) ∈ Gen.pieceSites := by decide
 example : evalPiece expectedPiece 1000 5 = .ok 12 ∧ evalPiece expectedPiece 3 5 = .ok 1 := by decide
 
 end SizeLiteral
+
+/-! ## the wrapper stack of the commands and the loop that drains it (`ReplicatModel/IOStack.lean`)
+
+Transparency clause of C20 for the WHOLE stack TQDMIOReader/Writer → CallbackIOWrapper → _RateLimitedFileWrapper → stream.
+`Gen.ioWrapperTable` (probed from the classes), `Gen.ioStackSites` (order of wrapping at the four call sites) and
+`Gen.ioIterChunksShape` are regenerated on every run; `iostack_source_facts` compares them with the model's own tables. -/
+section IOStackSection
+open Replicat.IOStack
+
+/-- the source still has the shape the model was written from (per class and method: which method of the wrapped object gets
+    the arguments, what is told to tracker / limiter / callback afterwards; the four stacks; the read loop) -/
+theorem iostack_source_facts :
+    Gen.ioWrapperTable = specTable ∧ Gen.ioStackSites = siteTable ∧ Gen.ioIterChunksShape = "read-until-empty" := by
+  decide
+
+/-- REFINEMENT, every stack (any layers in any order), every file, every sequence of operations: the results returned through
+    the stack and the final underlying file are those of the bare file (a method the wrappers do not have raises, touches nothing) -/
+theorem iostack_transparent (ls : List Layer) (f : File) (ops : List Op) :
+    (runStack ls f ops).1 = (runBare ls f ops).1 ∧ (runStack ls f ops).2.1 = (runBare ls f ops).2 :=
+  runStack_refines ls ops f
+
+/-- … and when every operation is one the stack has, that is literally the plain file -/
+theorem iostack_transparent_offered (ls : List Layer) (f : File) (ops : List Op)
+    (h : ∀ op ∈ ops, offers ls op.meth = true) :
+    (runStack ls f ops).1 = (runFile f ops).1 ∧ (runStack ls f ops).2.1 = (runFile f ops).2 := by
+  have a := runStack_refines ls ops f
+  rw [runBare_eq_runFile ls ops f h] at a
+  exact a
+
+/-- what the four stacks offer: seek and truncate always, read on the upload side, write on the download side, never tell -/
+theorem iostack_command_stacks_offer (c : Cmd) (limited : Bool) :
+    offers (commandStack c limited) .seek = true ∧ offers (commandStack c limited) .truncate = true ∧
+    offers (commandStack c limited) .tell = false ∧
+    offers (commandStack c limited) .read = decide (c = .snapshot ∨ c = .uploadObjects) ∧
+    offers (commandStack c limited) .write = decide (c = .restore ∨ c = .downloadObjects) := by
+  cases c <;> cases limited <;> decide
+
+/-- `truncate` through a command's stack: the tracker is RESET — count 0, total = the new size — although the position of the
+    stream does not move (mirrors `TQDMIOBase.truncate`; cosmetic: the bar restarts from 0 after b2/s3c/local `truncate(length)`) -/
+theorem iostack_truncate_resets_tracker (c : Cmd) (limited : Bool) (f : File) (n : Option Int) (s : Nat)
+    (h : (f.truncate n).2 = .num s) (n0 : Nat) (t0 : Option Nat) :
+    (stackStep (commandStack c limited) f (.truncate n)).2.2 = [.reset (some s)] ∧
+    trackerN n0 (stackStep (commandStack c limited) f (.truncate n)).2.2 = 0 ∧
+    trackerTotal t0 (stackStep (commandStack c limited) f (.truncate n)).2.2 = some s ∧
+    (stackStep (commandStack c limited) f (.truncate n)).1.pos = f.pos := by
+  have hp : (f.truncate n).1.pos = f.pos := by
+    cases n with
+    | none =>
+      have hp0 : ¬ ((f.pos : Int) < 0) := by omega
+      simp [File.truncate, hp0]
+    | some k => by_cases hk : k < 0 <;> simp [File.truncate, hk]
+  cases c <;> cases limited <;>
+    simp [commandStack, stackStep, layerSpec, Op.meth, File.apply, effEvents, h, hp, trackerN, trackerStep, trackerTotal, totalStep]
+
+/-- so "the tracker shows the position" is FALSE after a truncate (kernel-checked witness; snapshot stack, 3 bytes read, truncate()) -/
+theorem iostack_tracker_not_position_after_truncate :
+    ∃ (f : File) (ops : List Op),
+      trackerN 0 (runStack (commandStack .snapshot true) f ops).2.2 ≠ (runStack (commandStack .snapshot true) f ops).1.pos :=
+  ⟨⟨.bytesio, [1, 2, 3, 4, 5], 0, 0⟩, [.read (some 3), .truncate none], by decide⟩
+
+/-- `iter_chunks(stack, cs)`, cs ≥ 1, any stack that has `read`, any file INCLUDING a short-reading one: non-empty pieces of at
+    most cs bytes (at most `cap` for a short-reading stream — more pieces, same bytes), concatenation = the content from the
+    current position, the loop stops at the first empty read (which only the end of the stream produces), content untouched -/
+theorem iostack_iter_chunks_delivers (ls : List Layer) (cs : Int) (f : File) (hoff : offers ls .read = true) (hcs : 1 ≤ cs) :
+    (drain ls cs f).pieces.flatten = f.content.drop f.pos ∧ (drain ls cs f).ended = true ∧
+    (∀ p ∈ (drain ls cs f).pieces, 0 < p.length ∧ (p.length : Int) ≤ cs ∧ (f.cap ≠ 0 → p.length ≤ f.cap)) ∧
+    (drain ls cs f).file.content = f.content ∧ (drain ls cs f).file.pos = f.pos + f.avail := by
+  have a := iterChunks_stack_eq_bare ls cs hoff (drainFuel f) f
+  have b := iterChunks_bare cs hcs (drainFuel f) f (by simp [drainFuel])
+  unfold drain
+  rw [a.1, a.2.1, a.2.2]
+  exact b
+
+/-- chunk size 0: `read(0)` is empty, so the loop delivers NOTHING and reports a normal end (mirrors `iter(…, b'')`) -/
+theorem iostack_iter_chunks_zero (ls : List Layer) (f : File) (hoff : offers ls .read = true) :
+    (drain ls 0 f).pieces = [] ∧ (drain ls 0 f).ended = true ∧ (drain ls 0 f).file = f := by
+  have a := iterChunks_stack_eq_bare ls 0 hoff (drainFuel f) f
+  unfold drain
+  rw [a.1, a.2.1, a.2.2]
+  have hk : f.readLen (some 0) = 0 := by
+    unfold File.readLen; by_cases hc : f.cap = 0 <;> simp [hc]
+  simp [drainFuel, iterChunks, stackStep, File.apply, File.read, hk]
+
+/-- a stack without `read` (the download side): the first call raises, nothing is delivered, nothing is touched -/
+theorem iostack_iter_chunks_no_read (ls : List Layer) (cs : Int) (f : File) (hoff : offers ls .read = false) :
+    (drain ls cs f).pieces = [] ∧ (drain ls cs f).ended = false ∧ (drain ls cs f).file = f := by
+  have h := stackStep_fst_snd ls f (.read (some cs))
+  simp [bareStep, Op.meth, hoff] at h
+  simp [drain, drainFuel, iterChunks, h.1, h.2]
+
+/-- RETRY: `seek(0)` through the whole stack, then a full drain, re-delivers exactly the content — whatever the position was
+    (e.g. after an attempt that failed half way) — and leaves the content as it was, so every further retry delivers the same -/
+theorem iostack_rewind_redelivers (ls : List Layer) (cs : Int) (f : File)
+    (hr : offers ls .read = true) (hs : offers ls .seek = true) (hcs : 1 ≤ cs) :
+    (rewindDrain ls cs f).pieces.flatten = f.content ∧ (rewindDrain ls cs f).ended = true ∧
+    (rewindDrain ls cs f).file.content = f.content ∧
+    (rewindDrain ls cs (rewindDrain ls cs f).file).pieces.flatten = (rewindDrain ls cs f).pieces.flatten := by
+  have key : ∀ g : File, (rewindDrain ls cs g).pieces.flatten = g.content ∧ (rewindDrain ls cs g).ended = true ∧
+      (rewindDrain ls cs g).file.content = g.content := by
+    intro g
+    have h := (stackStep_fst_snd ls g (.seek 0 0)).1
+    have hb : (bareStep ls g (.seek 0 0)).1 = { g with pos := 0 } := by
+      simp [bareStep, Op.meth, hs, File.apply, File.seek]
+    rw [hb] at h
+    have d := iostack_iter_chunks_delivers ls cs { g with pos := 0 } hr hcs
+    unfold rewindDrain
+    rw [h]
+    exact ⟨by simpa using d.1, d.2.1, d.2.2.2.1⟩
+  have k1 := key f
+  have k2 := key (rewindDrain ls cs f).file
+  exact ⟨k1.1, k1.2.1, k1.2.2, by rw [k2.1, k1.2.2, k1.1]⟩
+
+/-! non-vacuity -/
+example : (runStack (commandStack .uploadObjects true) ⟨.bytesio, [1, 2, 3, 4, 5], 1, 0⟩ [.read (some 2), .seek 0 0, .read none]).2
+    = ([.bytes [2, 3], .num 0, .bytes [1, 2, 3, 4, 5]],
+       [.pause false 2, .callback 2, .update 2, .reset none, .update 0, .pause false 5, .callback 5, .update 5]) := by decide
+example : (drain (commandStack .snapshot true) 2 ⟨.bytesio, [1, 2, 3, 4, 5], 0, 0⟩).pieces = [[1, 2], [3, 4], [5]] := by decide
+example : (drain (commandStack .snapshot false) 4 ⟨.bytesio, [1, 2, 3, 4, 5], 0, 3⟩).pieces = [[1, 2, 3], [4, 5]] := by decide
+example : (runStack (commandStack .restore true) ⟨.osfile, [1, 2], 4, 0⟩ [.write [9], .truncate (some 7)]).1.content = [1, 2, 0, 0, 9, 0, 0] := by decide
+
+end IOStackSection
 
 end Replicat.C20
